@@ -26,8 +26,10 @@ func (C04) Generate(r *core.Rand, tier string, idx int) *core.Scenario {
 	sc.Cfg["nbox"] = r.Range(2, 3)
 	sc.Cfg["incgen"] = 0
 
-	if r.P(1, 6) {
-		sc.Cfg["revlist"] = 1
+	for _, k := range []string{"dupset", "revlist"} { // repaired input classes (F03, F04)
+		if r.P(1, 2) {
+			sc.Cfg[k] = 1
+		}
 	}
 	if r.P(1, 6) {
 		sc.Cfg["selfcopy"] = 1 // COPY/MOVE into the selected mailbox itself (finding F08)
@@ -188,6 +190,7 @@ func (C04) Execute(sc *core.Scenario, keepLog bool) *core.Result {
 				if m.Sel[si] >= 0 {
 					srcName = m.Boxes[m.Sel[si]]
 				}
+				ta := m.tame(a) // what Exec is going to send (the destination may be redirected)
 				ok := m.Exec(a)
 				m.hook = nil
 				if !ok || res == nil || !res.OK() {
@@ -207,7 +210,7 @@ func (C04) Execute(sc *core.Scenario, keepLog bool) *core.Result {
 						e.Fail("appenduid", "APPENDUID announced UID %d for message <%d> in %q, it is found under UID %d", uid, e.nextMark, name, at[e.nextMark])
 					}
 				} else {
-					dest := m.box(a.Arg(3))
+					dest := m.box(ta.Arg(3))
 					code := res.Code
 					for _, ln := range res.Lines {
 						if ln.Status == "OK" && strings.HasPrefix(ln.Code, "COPYUID") {
